@@ -26,20 +26,23 @@ CONSTANT MaxFaults
 
 Init == seed = 0 /\ faults = <<>> /\ done = FALSE
 
-\* faults are added in increasing field order (a script is a set), all on the same seed
+\* the first fault may hit any field; further faults hit one of the next `Window` fields of the
+\* same seed (neighbouring fields: same record / element / header), and only seeds marked
+\* `pairs` in the field map get multi-fault scripts
+CONSTANT Window
 AddFault(i, c) ==
   /\ ~done /\ Len(faults) < MaxFaults
+  /\ i \in 1..NF
   /\ c \in 1..Fields[i].ncls
-  /\ faults = <<>> \/ (Fields[i].seed = seed /\ faults[Len(faults)][3] < i)
+  /\ faults # <<>> => (Fields[i].seed = seed /\ Fields[i].pairs)
   /\ seed' = Fields[i].seed
   /\ faults' = Append(faults, <<Fields[i].f, c, i>>)
   /\ UNCHANGED done
 End == ~done /\ faults # <<>> /\ done' = TRUE /\ UNCHANGED <<seed, faults>>
-Next == (\E i \in 1..NF : \E c \in 1..11 : AddFault(i, c)) \/ End
+Next == \/ (faults = <<>> /\ \E i \in 1..NF : \E c \in 1..11 : AddFault(i, c))
+        \/ (faults # <<>> /\ \E d \in 1..Window : \E c \in 1..11 : AddFault(faults[Len(faults)][3] + d, c))
+        \/ End
 Spec == Init /\ [][Next]_vars
-
-\* thorough tier: pairs of faults on neighbouring fields (same record / element / header)
-Neighbours == Len(faults) < 2 \/ faults[2][3] - faults[1][3] <= 2
 
 Dump == done => PrintT(<<"REPLAY", ToJson([seed |-> seed, faults |-> [k \in 1..Len(faults) |-> <<faults[k][1], faults[k][2]>>]])>>)
 =============================================================================
